@@ -65,9 +65,52 @@ def has_lock(n):
     return False
 
 
+TOUCH_CALLS = {'svt_circular_buffer_empty_check', 'svt_circular_buffer_pop_front', 'svt_circular_buffer_push_back', 'svt_circular_buffer_push_front',
+               'svt_muxing_queue_assignation', 'svt_muxing_queue_object_push_back', 'svt_muxing_queue_object_push_front',
+               'svt_fifo_push_back', 'svt_fifo_pop_front', 'svt_fifo_peak_front'}
+TOUCH_FIELDS = {'live_count', 'release_enable', 'quit_signal'}
+# helpers whose queue operations rely on the caller's critical section: analysed as if entered with a mutex held, and every call to them is a Touch
+REQUIRES_CALLER_LOCK = ['svt_muxing_queue_assignation', 'svt_muxing_queue_object_push_back', 'svt_muxing_queue_object_push_front']
+
+
+def callee(n):
+    c = n['inner'][0]
+    while c.get('kind') in ('ImplicitCastExpr', 'ParenExpr'):
+        c = c['inner'][0]
+    return c.get('referencedDecl', {}).get('name')
+
+
+def lhs_field(n):
+    l = n['inner'][0]
+    while l.get('kind') in ('ImplicitCastExpr', 'ParenExpr'):
+        l = l['inner'][0]
+    return l.get('name') if l.get('kind') == 'MemberExpr' else None
+
+
+def is_touch(n):
+    k = n.get('kind')
+    if k == 'CallExpr' and callee(n) in TOUCH_CALLS:
+        return True
+    if k in ('BinaryOperator', 'CompoundAssignOperator') and (k == 'CompoundAssignOperator' or n.get('opcode') == '=') and lhs_field(n) in TOUCH_FIELDS:
+        return True
+    if k == 'UnaryOperator' and n.get('opcode') in ('++', '--') and lhs_field(n) in TOUCH_FIELDS:
+        return True
+    return False
+
+
+def has_touch(n):
+    if isinstance(n, dict):
+        return is_touch(n) or any(has_touch(c) for c in n.get('inner', []))
+    return False
+
+
 class Conv:
-    def __init__(self):
+    def __init__(self, touch=False):
         self.mutexes = {}
+        self.touch = touch
+
+    def ev(self, n):
+        return has_lock(n) or (self.touch and has_touch(n))
 
     def mid(self, key):
         return self.mutexes.setdefault(key, len(self.mutexes))
@@ -88,7 +131,7 @@ class Conv:
         if k == 'CompoundStmt':
             return self.seq([self.stmt(c) for c in n.get('inner', [])])
         if k == 'ReturnStmt':
-            pre = [self.stmt(c) for c in n.get('inner', []) if has_lock(c)]
+            pre = [self.stmt(c) for c in n.get('inner', []) if self.ev(c)]
             return self.seq(pre + ['Ret'])
         if k in ('BreakStmt', 'ContinueStmt'):
             return 'Brk'
@@ -96,7 +139,7 @@ class Conv:
             raise Unsupported(k)
         if k == 'IfStmt':
             inner = n['inner']
-            cond = self.stmt(inner[0]) if has_lock(inner[0]) else 'Skip'
+            cond = self.stmt(inner[0]) if self.ev(inner[0]) else 'Skip'
             th = self.stmt(inner[1]); el = self.stmt(inner[2]) if len(inner) > 2 else 'Skip'
             if th == 'Skip' and el == 'Skip':
                 return cond
@@ -107,6 +150,9 @@ class Conv:
             others = [c for c in n['inner'] if c is not body and c]
             if any(has_lock(c) for c in others):
                 raise Unsupported('lock call in a loop header')
+            if self.touch and any(has_touch(c) for c in others):
+                hd = self.seq([self.stmt(c) for c in others if has_touch(c)])
+                return self.seq([hd, '(Loop %s)' % self.seq([b, hd])])
             return 'Skip' if b == 'Skip' else '(Loop %s)' % b
         if k == 'SwitchStmt':
             body = n['inner'][-1]
@@ -136,6 +182,8 @@ class Conv:
             for a in reversed(alts):
                 r = '(If %s %s)' % (a, r)
             return '(Loop %s)' % r
+        if self.touch and is_touch(n):
+            return self.seq([self.stmt(c) for c in n.get('inner', []) if self.ev(c)] + ['Touch'])
         if k == 'CallExpr':
             c = n['inner'][0]
             while c.get('kind') in ('ImplicitCastExpr', 'ParenExpr'):
@@ -145,9 +193,9 @@ class Conv:
                 return '(Lock %d)' % self.mid(key_of(n['inner'][1]))
             if nm == UNLOCK:
                 return '(Unlock %d)' % self.mid(key_of(n['inner'][1]))
-        if k in ('ConditionalOperator',) and has_lock(n):
+        if k in ('ConditionalOperator',) and self.ev(n):
             raise Unsupported('lock call inside ?:')
-        if has_lock(n):
+        if self.ev(n):
             return self.seq([self.stmt(c) for c in n.get('inner', [])])
         # statements without lock calls may still contain returns (statement expressions do not occur here)
         if k in ('DeclStmt', 'BinaryOperator', 'UnaryOperator', 'CompoundAssignOperator', 'NullStmt', 'CStyleCastExpr', 'ImplicitCastExpr', 'ParenExpr', 'CallExpr', 'DeclRefExpr', 'IntegerLiteral', 'MemberExpr', 'StringLiteral'):
@@ -186,6 +234,35 @@ def generate(cache_dir=None, known=()):
     out.append('(* functions whose violation of the discipline is a recorded known finding (known_findings.json), by index *)')
     out.append('Definition lock_findings : list nat := [%s].' % '; '.join(str(i) for i, m in enumerate(ok) if m['name'] in known))
     return '\n'.join(out) + '\n', dict(functions=meta, analysed=[m['name'] for m in ok])
+
+
+def generate_guard(src='Source/Lib/Common/Codec/EbSystemResourceManager.c'):
+    """Skeletons with Touch events of every function of the system resource manager that takes a mutex (gen/GuardGen.v)."""
+    names = [n for s_, n in functions_with_locks() if s_ == src]
+    for r in REQUIRES_CALLER_LOCK:
+        if r not in names:
+            names.append(r)
+    out = ['(* GENERATED by translators/tr_locks.py (generate_guard) -- do not edit *)', 'From Coq Require Import List.', 'From SV Require Import GuardFlow.', 'Import ListNotations.', '']
+    meta = []
+    for i, name in enumerate(names):
+        d = cast.function_decl(src, name)
+        body = [c for c in d.get('inner', []) if c.get('kind') == 'CompoundStmt'][0]
+        cv = Conv(touch=True)
+        if name in REQUIRES_CALLER_LOCK:
+            inner = list(body.get('inner', []))
+            if inner and inner[-1].get('kind') == 'ReturnStmt' and not has_touch(inner[-1]) and not has_lock(inner[-1]):
+                inner = inner[:-1]
+            sk = cv.stmt(dict(kind='CompoundStmt', inner=inner))
+            sk = '(Seq (Lock 999) (Seq %s (Unlock 999)))' % sk      # the caller's critical section
+        else:
+            sk = cv.stmt(body)
+        ntouch = sk.count('Touch')
+        out.append('(* %d  %s   mutexes %s, %d shared accesses *)' % (i, name, {v: k for k, v in cv.mutexes.items()}, ntouch))
+        out.append('Definition g_%d : stmt := %s.' % (i, sk))
+        meta.append(dict(name=name, touches=ntouch, skeleton=sk))
+    out.append('Definition guard_functions : list (nat * stmt) := [%s].' % '; '.join('(%d, g_%d)' % (i, i) for i in range(len(names))))
+    out.append('Definition guard_touches : nat := %d.' % sum(m['touches'] for m in meta))
+    return '\n'.join(out) + '\n', dict(functions=meta)
 
 
 if __name__ == '__main__':
